@@ -68,6 +68,10 @@ def hosvd(  # noqa: PLR0912,PLR0913,PLR0915
             "Ranks must be a sequence of length tensor ndims."
             f" Ndims: {d} but got ranks: {ranks}."
         )
+    if np.any(ranks > np.array(input_tensor.shape)):
+        raise ValueError(
+            f"Ranks {ranks} exceed the tensor shape {input_tensor.shape} in some mode."
+        )
 
     # Set up dimorder if not specified (this is copy past from tucker_als
     if dimorder is None:
